@@ -161,6 +161,15 @@ func lkind(p string) string {
 	return "special"
 }
 
+func treeHasBackslash(c caseT) bool {
+	for _, e := range c.Tree {
+		if strings.Contains(e.Path, "\\") {
+			return true
+		}
+	}
+	return false
+}
+
 func violate(c caseT, class, kind, what string) {
 	res.Violate("mismatch", "c13/scan", map[string]any{"class": class, "kind": kind, "mode": c.Mode}, what+" | case: "+fmt.Sprintf("%+v", c), c)
 }
@@ -190,7 +199,9 @@ func checkManifest(c caseT, m manifest.Manifest, resolve func(string) string, ab
 	files, dirs := 0, 0
 	var total int64
 	for _, it := range m.Items {
-		if strings.Contains(it.RelPath, "\\") || strings.HasPrefix(it.RelPath, "/") || it.RelPath == "" {
+		// a backslash is an ordinary character of a file name here, not a separator: only a
+		// backslash that no name of the tree contains would show that separators were converted
+		if (strings.Contains(it.RelPath, "\\") && !treeHasBackslash(c)) || strings.HasPrefix(it.RelPath, "/") || it.RelPath == "" {
 			violate(c, "relpath-shape", "any", fmt.Sprintf("rel_path %q", it.RelPath))
 		}
 		if it.IsDir {
@@ -437,11 +448,14 @@ func main() {
 		{3, 2, []string{"a", "b", "1_a", "ä b"}, []string{"a", "1_a"}, []string{"f0", "f3", "symF", "symD", "symX"}, []string{"%s", "./%s", "%s/", "%s/.", "$ROOT/%s"}},
 		// B: disambiguation prefixes: plain files/dirs only, longer lists
 		{4, 3, []string{"a", "b", "1_a", "2_a"}, []string{"a", "1_a", "b"}, []string{"f3"}, []string{"%s", "%s/."}},
+		// C: legal names that merely look like path tricks (dots, leading dots, backslash)
+		{3, 2, []string{"a..b", "..a", "a..", "a\\b"}, []string{"x..y", "..h", "a"}, []string{"f0", "f3"}, []string{"%s", "./%s", "$ROOT/%s"}},
 	}
 	if thorough {
 		fams = []fam{
 			{4, 2, []string{"a", "b", "1_a", "2_a", "ä b", ".h"}, []string{"a", "1_a", "b"}, []string{"f0", "f3", "symF", "symD", "symX"}, []string{"%s", "./%s", "%s/", "%s/.", "b/../%s", "$ROOT/%s"}},
 			{5, 3, []string{"a", "b", "1_a", "2_a"}, []string{"a", "1_a", "2_a", "b"}, []string{"f3", "f0"}, []string{"%s", "%s/."}},
+			{4, 2, []string{"a..b", "..a", "a..", "a\\b", "..."}, []string{"x..y", "..h", "a"}, []string{"f0", "f3", "symF"}, []string{"%s", "./%s", "%s/.", "$ROOT/%s"}},
 		}
 	}
 	for fi, f := range fams {
